@@ -30,6 +30,15 @@ def _mv(node):
     return None
 
 
+def _mvn(node):
+    """name-only metavariable (stands for a local variable, whatever its
+    spelling): matches an identifier, never a compound expression"""
+    if isinstance(node, ast.Name) and node.id.startswith('__mvn_') and \
+            node.id.endswith('__'):
+        return node.id[6:-2]
+    return None
+
+
 def _same(a, b):
     return ast.dump(_strip(a)) == ast.dump(_strip(b))
 
@@ -55,6 +64,16 @@ def _strip(n):
 def match(p, n, b):
     """match pattern node p against node n extending bindings b (dict);
     returns new bindings dict or None."""
+    mvn = _mvn(p)
+    if mvn is not None:
+        if not isinstance(n, ast.Name):
+            return None
+        key = 'n:' + mvn
+        if key in b:
+            return b if b[key].id == n.id else None
+        nb = dict(b)
+        nb[key] = n
+        return nb
     mv = _mv(p)
     if mv is not None:
         if mv == '_':
@@ -196,6 +215,28 @@ import builtins as _bi
 _HEAD = ('for ', 'if ', 'while ', 'with ', 'elif ', 'def ', 'try', 'else')
 
 
+class _Missing:
+    """position of a fragment that is not there: every ordering comparison
+    with it is False, so `a.index(x) < a.index(y)` fails the obligation
+    instead of crashing the rule"""
+
+    def __lt__(self, o):
+        return False
+    __gt__ = __le__ = __ge__ = __lt__
+
+    def __eq__(self, o):
+        return False
+
+    def __hash__(self):
+        return 0
+
+    def __repr__(self):
+        return 'MISSING'
+
+
+MISSING = _Missing()
+
+
 class Code:
     """source of a function as a searchable object.
 
@@ -260,7 +301,7 @@ class Code:
             class T(ast.NodeTransformer):
                 def visit_Name(self, n):
                     if n.id not in fixed:
-                        return ast.Name(id=f'__mv_{n.id}__', ctx=n.ctx)
+                        return ast.Name(id=f'__mvn_{n.id}__', ctx=n.ctx)
                     return n
             if isinstance(node, ast.Name):
                 return None         # a bare word: text search, not a wildcard
@@ -330,7 +371,7 @@ class Code:
         if best is None:
             if frag in self.text:
                 return self.text.index(frag)
-            raise ValueError(snippet)
+            return MISSING
         return best
 
     def count(self, snippet):
